@@ -105,6 +105,13 @@ def annotate(workdir, repo=REPO):
         overlay.nth_loop_rule("_rolling_hash2_run", r"for \(i = 0; i < w; i\+\+\)(?P<at>) \{", "VF_L_RUN0", name="loop:run0"),
     ]
     out, fired = overlay.apply(text, rules)
+    # every loop of a function proved with loop contracts must carry one: a loop the rules do not know (changed code) means
+    # the annotation is incomplete -> undecided (exit 2), not a violation
+    for fn, nloops in (("_rolling_hash2_run", 2), ("_rolling_hash2_reset", 1), ("_rolling_hash2_run_until_base", 2)):
+        lo, hi = overlay.function_span(text, fn)
+        found = len(re.findall(r"\b(?:for|while)\s*\(", text[lo:hi]))
+        if found != nloops:
+            raise overlay.OverlayError("%s has %d loops, the loop contracts cover %d" % (fn, found, nloops))
     out += HARNESS
     os.makedirs(workdir, exist_ok=True)
     path = os.path.join(workdir, "rolling_hash2.c")
@@ -135,8 +142,9 @@ def jobs(workdir, repo=REPO):
             mem_gb=16, expect_classes=["postcondition"], meta=dict(meta, cost=100),
             **dict(smt, solvers=["minisat:30", "cadical:700", "z3:60", "cvc5:90", "minisat"]), **small),
         Job("rolling/run", [path], entry="vf_h_run", enforce="_rolling_hash2_run", replace=["_rolling_hash2_run_until", "memcpy", "memmove"],
-            loop_contracts=True, timeout=900, mem_gb=16, object_bits=12,
-            expect_classes=["postcondition", "precondition", "loop_invariant_step"], meta=dict(meta, cost=300), **smt, **small),
+            loop_contracts=True, timeout=1500, mem_gb=20, object_bits=12,
+            expect_classes=["postcondition", "precondition", "loop_invariant_step"], meta=dict(meta, cost=300),
+            **dict(smt, rest_solvers=["minisat:120", "cadical:600", "z3:300", "minisat"], rest_chunk=30), **small),
         Job("rolling/lemma_reset", [lem], entry="lemma_reset", unwind=50, timeout=900, solvers=["minisat", "cadical", "z3"], checks=[],
             expect_classes=["assertion"], meta=dict(lmeta, cost=20)),
         Job("rolling/lemma_step", [lem], entry="lemma_step", unwind=50, timeout=900, solvers=["minisat", "cadical", "z3"], checks=[],
